@@ -478,6 +478,12 @@ class HTTP1Connection(httputil.HTTPConnection):
                 raise ValueError(
                     "Illegal characters (CR, LF or NUL) in header: %r" % line
                 )
+        for name, _ in headers.get_all():
+            # HTTPHeaders.__setitem__ does not validate names; a name that is not a
+            # token (e.g. one containing ": ") would be read by the peer as a
+            # different header.
+            if not httputil._ABNF.field_name.fullmatch(native_str(name)):
+                raise ValueError("Illegal header name (not a token): %r" % name)
         future = None
         if self.stream.closed():
             future = self._write_future = Future()
